@@ -91,6 +91,72 @@ Theorem C17_kp_rot90_four_turns : forall f k ax, In ax planes -> angle_ok k ->
 Proof. exact kp_rot90_four. Qed.
 Print Assumptions C17_kp_rot90_four_turns.
 
+(* ---- relations BETWEEN the lattice maps: the laws above hold for ANY consistently renumbered set of turns (swap
+   what factors 1 and 3 mean and k-then-(4-k) still returns the input); the relations below pin every quarter turn
+   of the xy plane to the transpose and the flips, for boxes and for keypoints incl. angle and scale ---- *)
+Theorem C17_box_rot90_factor_is_k_single_turns : forall r c s b ax, In ax planes ->
+  res_box_eq (do b1 <- bbox_rot90 b 1 ax r c s; bbox_rot90 b1 1 ax r c s) (bbox_rot90 b 2 ax r c s) /\
+  res_box_eq (do b1 <- bbox_rot90 b 2 ax r c s; bbox_rot90 b1 1 ax r c s) (bbox_rot90 b 3 ax r c s).
+Proof. intros. split; [apply bbox_rot90_two | apply bbox_rot90_three]; assumption. Qed.
+Print Assumptions C17_box_rot90_factor_is_k_single_turns.
+
+Theorem C17_box_dihedral_relations : forall r c s r' c' s' b,
+  res_box_eq (bbox_rot90 b 1 "xy" r c s) (do b1 <- bbox_transpose b 0 r c s; Ok (bbox_vflip b1 r' c' s')) /\
+  res_box_eq (bbox_rot90 b 3 "xy" r c s) (do b1 <- bbox_transpose b 0 r c s; Ok (bbox_hflip b1 r' c' s')) /\
+  res_box_eq (bbox_transpose b 1 r c s) (do b1 <- bbox_transpose b 0 r c s; bbox_rot90 b1 2 "xy" r' c' s') /\
+  (res_box_eq (bbox_rot90 b 2 "xy" r c s) (Ok (bbox_vflip (bbox_hflip b r c s) r' c' s')) /\
+   res_box_eq (bbox_rot90 b 2 "yz" r c s) (Ok (bbox_zflip (bbox_vflip b r c s) r' c' s')) /\
+   res_box_eq (bbox_rot90 b 2 "xz" r c s) (Ok (bbox_zflip (bbox_hflip b r c s) r' c' s'))).
+Proof.
+  intros. repeat apply conj;
+  [apply bbox_rot90_is_transpose_vflip | apply bbox_rot270_is_transpose_hflip
+  | apply bbox_antitranspose_is_transpose_rot180 | apply bbox_rot180_is_two_flips ..].
+Qed.
+Print Assumptions C17_box_dihedral_relations.
+
+Theorem C17_box_flip_conjugates_and_commutes_with_turns : forall r c s r' c' s' b k, In k factors ->
+  (res_box_eq (do b1 <- bbox_rot90 (bbox_vflip b r c s) k "xy" r c s; Ok (bbox_vflip b1 r' c' s'))
+              (bbox_rot90 b ((4 - k) mod 4) "xy" r c s) /\
+   res_box_eq (do b1 <- bbox_rot90 (bbox_hflip b r c s) k "xy" r c s; Ok (bbox_hflip b1 r' c' s'))
+              (bbox_rot90 b ((4 - k) mod 4) "xy" r c s)) /\
+  res_box_eq (do b1 <- bbox_rot90 b k "xy" r c s; Ok (bbox_zflip b1 r' c' s')) (bbox_rot90 (bbox_zflip b r c s) k "xy" r c s) /\
+  res_box_eq (do b1 <- bbox_rot90 b k "yz" r c s; Ok (bbox_hflip b1 r' c' s')) (bbox_rot90 (bbox_hflip b r c s) k "yz" r c s) /\
+  res_box_eq (do b1 <- bbox_rot90 b k "xz" r c s; Ok (bbox_vflip b1 r' c' s')) (bbox_rot90 (bbox_vflip b r c s) k "xz" r c s).
+Proof.
+  intros r c s r' c' s' b k Hk. repeat apply conj;
+  [apply bbox_flip_conjugates_rot90 | apply bbox_flip_conjugates_rot90 | apply bbox_zflip_commutes_rot90_xy
+  | apply bbox_hflip_commutes_rot90_yz | apply bbox_vflip_commutes_rot90_xz]; exact Hk.
+Qed.
+Print Assumptions C17_box_flip_conjugates_and_commutes_with_turns.
+
+Theorem C17_kp_rot90_factor_is_k_single_turns : forall f k ax, In ax planes ->
+  res_kp_eq (do k1 <- kp_rot90_in f k 1 ax; kp_rot90_in (rot_frame ax 1 f) k1 1 ax) (kp_rot90_in f k 2 ax) /\
+  res_kp_eq (do k1 <- kp_rot90_in f k 2 ax; kp_rot90_in f k1 1 ax) (kp_rot90_in f k 3 ax).
+Proof. intros. split; [apply kp_rot90_two | apply kp_rot90_three]; assumption. Qed.
+Print Assumptions C17_kp_rot90_factor_is_k_single_turns.
+
+(* the flips after the transpose act in the transposed frame: rows = c, columns = r *)
+Theorem C17_kp_dihedral_relations : forall r c s k, angle_ok k ->
+  res_kp_eq (keypoint_rot90 k 1 "xy" r c s) (Ok (keypoint_vflip (keypoint_transpose k) c r s)) /\
+  res_kp_eq (keypoint_rot90 k 3 "xy" r c s) (Ok (keypoint_hflip (keypoint_transpose k) c r s)) /\
+  res_kp_eq (keypoint_rot90 k 2 "xy" r c s) (Ok (keypoint_vflip (keypoint_hflip k r c s) r c s)).
+Proof.
+  intros r c s k H. repeat apply conj;
+  [apply kp_rot90_is_transpose_vflip; exact H | apply kp_rot270_is_transpose_hflip; exact H | apply kp_rot180_is_two_flips].
+Qed.
+Print Assumptions C17_kp_dihedral_relations.
+
+Theorem C17_kp_flip_conjugates_and_commutes_with_turns : forall r c s k n, In n factors ->
+  res_kp_eq (do k1 <- keypoint_rot90 (keypoint_vflip k r c s) n "xy" r c s;
+             Ok (let '(r1, c1, s1) := rot_frame "xy" n (r, c, s) in keypoint_vflip k1 r1 c1 s1))
+            (keypoint_rot90 k ((4 - n) mod 4) "xy" r c s) /\
+  res_kp_eq (do k1 <- keypoint_rot90 k n "xy" r c s; Ok (keypoint_zflip k1 r c s))
+            (keypoint_rot90 (keypoint_zflip k r c s) n "xy" r c s).
+Proof.
+  intros r c s k n Hn. split; [apply kp_vflip_conjugates_rot90 | apply kp_zflip_commutes_rot90_xy]; exact Hn.
+Qed.
+Print Assumptions C17_kp_flip_conjugates_and_commutes_with_turns.
+
 (* a pad followed by the inverse crop (generated PadIfNeeded and Crop methods): boxes, keypoints (incl. angle and
    scale) and voxels return to their original values, for every frame and all six pad amounts *)
 From Coq Require Import ZArith String.
